@@ -387,7 +387,7 @@ Definition step_res (g : graph) (cfg : config) (s : state) (ev : event) : res st
       end
     else Forbidden
   | EvInterrupt =>
-    (* Cleanup(): command_runner_->Abort() kills and forgets the active commands (and, in the real
+    (* Cleanup(): the command runner's abort method kills and forgets the active commands (and, in the real
        runner, returns their jobserver slots) *)
     if in_build s && s_waiting s then
       Ok (mkState (set_tokens p (p_tokens p - length (s_running s))) [] (s_pending s) (s_fa s)
